@@ -795,6 +795,52 @@ def judge_esn_raw_inputs(seed):
     return None
 
 
+def judge_offline_and_online_node(seed):
+    """a custom node carrying BOTH an offline and an online rule inside a model that is fitted offline (targets given for every trainable node):
+    Model.fit must terminate, and the Ridge readout downstream gets the parameters of the explicit procedure (the custom node is the identity)"""
+    import signal
+    import reservoirpy as rpy
+    from reservoirpy.node import Node
+    from reservoirpy.nodes import Reservoir, Ridge
+    rpy.verbosity(0)
+    tag = "bo%d" % seed
+    sc = {"kind": "offline-and-online-node", "seed": seed}
+    rs = np.random.RandomState(seed)
+    W = rs.randint(-4, 5, (3, 3)) / 8.0
+    Win = rs.randint(-4, 5, (3, 2)) / 4.0
+    X, Y = rs.randint(-8, 9, (8, 2)) / 4.0, rs.randint(-8, 9, (8, 1)) / 4.0
+
+    def init(n, x=None, y=None):
+        n.set_input_dim(x.shape[1]); n.set_output_dim(x.shape[1])
+    both = Node(forward=lambda n, x: x, initializer=init, partial_backward=lambda n, X_, Y_=None, **k: None,
+                backward=lambda n, X_=None, Y_=None: None, train=lambda n, x, y=None: None, name=tag + "_both")
+    res = Reservoir(3, W=W, Win=Win, bias=np.zeros((3, 1)), lr=0.5, name=tag + "_r")
+    rd = Ridge(ridge=0.5, name=tag + "_o")
+
+    def onalarm(*a):
+        raise TimeoutError("Model.fit did not return within 20 s")
+    old = signal.signal(signal.SIGALRM, onalarm)
+    signal.alarm(20)
+    try:
+        (res >> both >> rd).fit(X, {rd.name: Y, both.name: np.zeros((8, 3))})
+    except TimeoutError as ex:
+        return {"key": "fit-staging:offline-and-online-node-hangs", "what": "reservoir >> (custom node with an offline AND an online rule) >> Ridge: %s "
+                "(get_offline_subgraphs: `offlines` excludes such a node but `trained` receives it, so `while trained != offlines` never ends)" % ex,
+                "scenario": sc, "expected": "fit returns", "observed": "hang"}
+    except Exception as ex:  # noqa: BLE001
+        return {"key": "fit-staging:offline-and-online-node:exception", "what": "fit raises %s: %s" % (type(ex).__name__, ex), "scenario": sc,
+                "expected": None, "observed": None}
+    finally:
+        signal.alarm(0)
+        signal.signal(signal.SIGALRM, old)
+    r2 = Reservoir(3, W=W, Win=Win, bias=np.zeros((3, 1)), lr=0.5, name=tag + "_r2")
+    ref = Ridge(ridge=0.5, name=tag + "_o2").fit(r2.run(X, reset=True), Y)
+    if not (np.allclose(rd.Wout, ref.Wout, atol=1e-9) and np.allclose(rd.bias, ref.bias, atol=1e-9)):
+        return {"key": "fit:params-differ:offline-and-online-node", "what": "the Ridge downstream of an identity node with both rules differs from the explicit procedure",
+                "scenario": sc, "expected": np.asarray(ref.Wout).tolist(), "observed": np.asarray(rd.Wout).tolist()}
+    return None
+
+
 def oracle(ctx, scale=1):
     rng = ctx.rng("oracle")
     cases = gen_cases(rng, ctx.n(60, 600) * scale)
@@ -808,7 +854,10 @@ def oracle(ctx, scale=1):
     v = judge_esn_raw_inputs(ctx.seed)
     if v:
         out.append(v)
-    return {"evaluations": len(cases) + 1, "violations": out, "distribution": dist,
+    v = judge_offline_and_online_node(ctx.seed)
+    if v:
+        out.append(v)
+    return {"evaluations": len(cases) + 2, "violations": out, "distribution": dist,
             "rule": "explicit node-by-node procedure with real nodes on fresh copies (Node.run / Ridge.fit(states, Y, warmup) / predictions fed "
                     "downstream) vs Model.fit / ESN.fit: Wout and bias of every readout to 1e-9; explicit per-timestep loop (Node.call upstream, "
                     "readout.train(x_t, y_t, call=False) on the steps selected by learn_every) vs Model.train with X as array and as mapping: "
@@ -820,6 +869,9 @@ def replay(payload):
     if ff:                                 # a disagreeing fit-with-feedback scenario stored by the correspondence
         return fitfb.replay(ff[0])
     sc = payload["scenario"]
+    if sc.get("kind") == "offline-and-online-node":
+        v = judge_offline_and_online_node(sc.get("seed", 0))
+        return {"violates": bool(v), "detail": v}
     if sc.get("kind") == "esn-raw-inputs":
         v = judge_esn_raw_inputs(sc.get("seed", 0))
         return {"violates": bool(v), "detail": v}
